@@ -52,3 +52,23 @@ TABLE['C01'] = {
     'assumptions': ['lifecycle callbacks (on_add/on_remove) may observe the world but do not modify it (C01 quantifies over sequences of World operations, not re-entrant ones)'],
     'explanation': 'World methods verified against wf_W (index = transpose of table, no empty rows, exact-type storage) and the abstract view att.',
 }
+
+_WORLD_ASSUME = [
+    'lifecycle callbacks (on_add/on_remove) may observe the world (its invariants are proved at every callback site) but do not modify it',
+    'a component instance is attached to at most one entity at a time (invariant U1, required of add_component/create_entity arguments)',
+]
+for _p, _txt in (
+        ('C02', 'Lifecycle clauses on the ghost call counter and the pending queue, per attach/detach operation; R1 (attached handler => registered), R2/R3 (the world listens to itself for the relay event).'),
+        ('C05', 'Two-step deletion: delete_entity only marks; _clear_dead_entities applies every mark (loop invariants), no implicit exception except for identifiers that never existed, marks consumed before they are applied; process applies deletions before any processor.'),
+        ('C06', 'Class-hierarchy theory + walk invariants with a ghost witness: every match below the fringe; exact type first; at most one removal.'),
+        ('C07', 'bisect/insort loop invariants, wf_P (one processor per exact type, sorted by priority), process calls each processor once in list order (ghost processor log).')):
+    TABLE[_p] = {
+        'modules': ['world_spec'], 'replay': 'world_replay', 'level': 'proof',
+        'trusted_base': T_STATE + ['class hierarchy theory: desc reflexive, one-step transitive, __subclasses__() lists direct subclasses, every proper descendant is below a direct subclass'],
+        'assumptions': list(_WORLD_ASSUME),
+        'explanation': _txt,
+    }
+TABLE['C01']['assumptions'] = list(_WORLD_ASSUME)
+TABLE['C07']['assumptions'] = list(_WORLD_ASSUME) + ['site World.process: a processor does not add or remove processors of the world being processed (C07 quantifies over sequences of calls)']
+
+TABLE['C07']['modules'] = ['bisect_spec', 'world_spec']
